@@ -117,7 +117,7 @@ func gen(treesPath, resPath string) {
 	}
 	// MR5: a Bundle whose entries are resources of DIFFERENT types that share element names and backbone short names
 	// (Patient.Contact / Organization.Contact): one evaluation walks both
-	for _, m := range []string{"MR1", "MR2", "MR3", "MR5"} {
+	for _, m := range []string{"MR1", "MR2", "MR3", "MR5", "MR6"} {
 		emit(m, lib.LoadModelResource(m))
 	}
 	for n, j := range jobs {
